@@ -123,9 +123,9 @@ def writer_opcode_table(ctx, fn):
     return b, tabs
 
 
-def reader_opcode_arms(ctx):
-    """opcode value -> arm region in read_key_value_with_type: comparisons `op == CONST`"""
-    b = ctx.prog.need(RD + "read_key_value_with_type")
+def reader_opcode_arms(ctx, fn=None):
+    """opcode value -> arm region in read_key_value_with_type (or fn): comparisons `op == CONST`"""
+    b = ctx.prog.need(fn or (RD + "read_key_value_with_type"))
     arms = {}
     for i, bb in enumerate(b.bbs):
         for st in bb["s"]:
@@ -864,3 +864,50 @@ def rule_deadline_clock(ctx, R):
                           "the %s (line %d) is computed without reading the clock in %s itself%s: the key's remaining TTL was measured when the key was visited, so a clock value taken earlier moves every deadline by the time elapsed in between" % (
                               what, b.bb_line(i), fn.split("::")[-1], (" (uses %s)" % ", ".join(c_.rsplit(".", 1)[-1] for c_ in cached)) if cached else ""), b.loc(i))
     R.floor("deadline_conversions", sites)
+
+
+
+def rule_shape_siblings(ctx, R):
+    """every other function of the reader that dispatches on the value-type byte (a skipper, a
+    validator, a second loader) consumes, per type, exactly what the writer emits for that type:
+    same straight-line primitives, same per-element loop bodies (a hash is count x TWO strings)"""
+    wb = ctx.prog.need(W + "write_key_value")
+    sw = discr_switch_on(ctx, wb, VALUE)
+    if not sw:
+        R.broken.append("Value switch not found in write_key_value"); return
+    i, names, other, p = sw[0]
+    wt = writer_opcode_table(ctx, W + "write_key_value")[1][0][1]
+    type_opcodes = {wt[v][0]: v for v in VARIANTS if v in wt}
+    main = RD + "read_key_value_with_type"
+    n = 0; nf = 0
+    for fn, b in sorted(ctx.prog.bodies.items()):
+        if not fn.startswith(RD) or fn == main or "::tests::" in fn or b.kind == "Closure":
+            continue
+        nf += 1
+        _, arms = reader_opcode_arms(ctx, fn)
+        typed = {opc: regs for opc, regs in arms.items() if opc in type_opcodes}
+        if len(typed) < 2:
+            continue
+        for opc, regs in sorted(typed.items()):
+            v = type_opcodes[opc]
+            if v in ("Stream", "List"):
+                continue          # the List opcode is shared with the in-band stream encoding
+            wreg = cfg.edge_dom_set(wb, i, names[v])
+            wseq, wloops = shape_of(wb, wreg, PRIM_W, W)
+            wseq2 = wseq[1:] if wseq and wseq[0] == "byte" else wseq
+            # the writer's arm includes the key string; a sibling may read the key before its dispatch
+            rreg = set()
+            for (s_, tgt) in regs:
+                rreg |= arm_blocks(b, s_, tgt)
+            rseq, rloops = shape_of(b, rreg, PRIM_R, RD)
+            n += 1
+            wcore = [k for k in wseq2]
+            ok_loops = (wloops == rloops)
+            ok_seq = (rseq == wcore) or (wcore and wcore[0] == "string" and rseq == wcore[1:])
+            R.inst(fn, "sibling-shape:" + v, {"function": fn.split("::")[-1], "variant": v, "writer": {"seq": wseq2, "loops": wloops}, "this_reader": {"seq": rseq, "loops": rloops}})
+            if not (ok_loops and ok_seq):
+                R.finding(fn, "sibling-shape:%s:mismatch" % v,
+                          "%s consumes a %s record as %s + loops %s but the writer emits %s + loops %s: after such a record the rest of the file is read out of step (every later key and database is lost)" % (
+                              fn.split("::")[-1], v, rseq, rloops, wseq2, wloops), b.loc(regs[0][0]))
+    R.inst("storage::rdb::RdbReader", "reader-functions-scanned-for-type-dispatch", {"functions": nf, "typed_arms_compared": n})
+    R.floor("reader_functions_scanned", nf)
